@@ -8,7 +8,7 @@ namespace Attrs.C04
 
 def cls0 : Cls :=
   { api := .attrS, eq := .unset, cmp := .unset, hash := .unset, unsafeHash := .unset, init := .unset,
-    frozen := .unset, slots := .unset, autoDetect := .unset, autoExc := .unset, cacheHash := .unset,
+    frozen := .unset, slots := .unset, autoDetect := .unset, autoExc := .unset, cacheHash := .unset, getstateSetstate := .unset,
     ownHash := .no, ownEq := false, ownNe := false, ownInit := false, fields := [] }
 
 def fa : Field := { name := "a", eq := .t, hash := none }
